@@ -23,6 +23,11 @@ CLAIMED = {
         "technique": "RNG-provenance rule with non-None must-facts; interprocedural must-assigned / read-before-write dataflow on fitted attributes; guard agreement for partially assigned state",
         "note": _COMMON_NOTE + " Declined: bit-equality of two fits and 'refit equals fresh clone' as numerical statements; staleness of partially assigned attributes that no predict-reachable code reads.",
     },
+    "C04": {
+        "text": "Static analysis of every predict/transform path: gather/scatter pairing is decided by def-use signatures (the mask that selects rows is the very value through which results are written back; in-place mutation of a mask between the two uses is a new definition); predict-time purity (no store to self.*, no global-stream draw reachable from any predict-like method, frozen exemptions printed); clone_with_fitted_parameters installs only copies; compiled criteria define __getstate__/__setstate__ (Cython parse tree). These are the structural necessary conditions for batch-independence, repeatability and persistence; equality of outputs is a runtime fact and is declined.",
+        "technique": "def-use signature pairing of gather/scatter masks; reachability census of self.* stores and RNG draws from predict entry points; copy-provenance rule; Cython parse-tree query",
+        "note": _COMMON_NOTE + " Declined: equality of outputs row-vs-batch, after pickle, or after cloning (batch statistics hidden in arithmetic cannot be excluded by shape).",
+    },
 }
 
 NOT_APPLICABLE = {}
